@@ -99,11 +99,63 @@ def _f_counted(a=Option("A", 0)):
 counted = dataset(_f_counted, effects=[eff])
 
 
+def loud_effect(v):
+    raise ValueError("this effect is switched off on its dataset and must stay so")
+
+
+def _f_quiet(a=Option("A", 0)):
+    return ("quiet", a)
+
+
+# a dataset whose effects were switched off before pickling
+quiet = dataset(_f_quiet, effects=[loud_effect])
+quiet.disable_effects()
+
+
+def _f_mapped(rows=None, n=Option("B", 0)):
+    return ("mapped", rows, n)
+
+
+def _rows(it):
+    return [list(map(list_or_same, pair)) for pair in it]
+
+
+def list_or_same(x):
+    return dict(x) if isinstance(x, dict) else x
+
+
+# a graph containing a Map over a dataset (evaluated before it is pickled by the warm round trips)
+from labrea import Map, Template, coalesce, evaluatable_list, switch  # noqa: E402
+
+mapped = dataset(_f_mapped, defaults={"rows": Map(plain, {"A": [1, 2]}).apply(_rows)})
+
+
+def _f_combo(sw=None, co=None, tm=None, li=None):
+    return ("combo", sw, co, tm, li)
+
+
+def _is_one(x):
+    return x == 1
+
+
+from labrea import case  # noqa: E402
+
+combo = dataset(
+    _f_combo,
+    defaults={
+        "sw": switch(Option("D", "x"), {"x": plain, "y": Value("why")}, Value("dflt")),
+        "co": coalesce(Option("B"), Value("no-b")),
+        "tm": Template("{A}-t/{:p:}", p=Option("B", 0)),
+        "li": evaluatable_list(Option("A", 0), case(Option("A", 0)).when(_is_one, Value("one")).otherwise(Value("other"))),
+    },
+)
+
+
 def late_impl(a=Option("A", 0)):
     return ("late2", a)
 
 
-EXPLICIT = ["plain", "dep", "with_callback", "with_effects", "preset", "defaults", "derivative", "disp", "abstract", "nocache", "cyclic", "counted"]
+EXPLICIT = ["plain", "dep", "with_callback", "with_effects", "preset", "defaults", "derivative", "disp", "abstract", "nocache", "cyclic", "counted", "quiet", "mapped", "combo"]
 
 
 # decorator form ---------------------------------------------------------
